@@ -145,7 +145,7 @@ class C31(Check):
                         out.probe("rerecorded_after_loss")
                         if self.store_has(h):
                             lost.discard(h)
-                    if h in torn and os.path.getsize(self.store_path(h)) == torn_size[h]:
+                    if h in torn and self.store_has(h) and os.path.getsize(self.store_path(h)) == torn_size[h]:
                         # recording again rewrote the damaged object: held to full read-back again
                         out.probe("rerecorded_after_tear_repaired")
                         torn.discard(h)
